@@ -130,7 +130,8 @@ def check_graph(case, sub="graphs"):
 def strat_states(tier):
     small = gs.st_state(1, 6 if tier == "quick" else 8, max_word=30, max_rowops=14)
     big = gs.st_state(9, 24 if tier == "quick" else 40, max_word=60, max_rowops=25)
-    return st.one_of(small, small, gs.st_sparse_state(5, 9), gs.st_sparse_state(5, 9), big)
+    huge = gs.st_state(62, 70, max_word=120, max_rowops=25)  # beyond 64: integer packing / dtype limits
+    return st.one_of(small, small, gs.st_sparse_state(5, 9), gs.st_sparse_state(5, 9), big, big, huge)
 
 
 def enum_states(tier, seed):
